@@ -67,7 +67,8 @@ UrlDoc(f, u) ==
                 hostFold == Full(GlobToks(LowerS(pf.host)), LowerS(pu.host))
                 pathFold == pf.path = <<>> \/ Full(GlobToks(LowerS(pf.path)), LowerS(pu.path))
                 loose == \/ Find(LooseToks(LowerS(ff)), LowerS(u))
-                         \/ /\ Find(LooseToks(LowerS(pf.host)), LowerS(pu.host))
+                         \/ /\ \/ Find(LooseToks(LowerS(pf.host)), LowerS(pu.host))
+                               \/ Find(LooseToks(LowerS(StripWww(pf.host))), LowerS(pu.host))
                             /\ (pf.path = <<>> \/ Find(LooseToks(LowerS(pf.path)), LowerS(pu.path)))
             IN IF hostOK /\ pathOK THEN "hit"
                ELSE IF hostFold /\ pathFold THEN "fold"
@@ -100,7 +101,9 @@ ListPermitted(xs, x) ==       \* x is one of xs; equal up to letter case: either
 
 EndpointPermitted(es, u, Dev) ==
     LET path == Split(u).path
-        doc == IF \E i \in 1..Len(es) : es[i] = <<"*">> THEN {"hit"} ELSE ListPermitted(es, path)
+        doc == IF \E i \in 1..Len(es) : es[i] = <<"*">> THEN {"hit"}
+               ELSE IF path = <<>> THEN {"hit", "miss"}        \* (a call without any path: the texts do not say)
+               ELSE ListPermitted(es, path)
     IN doc \cup (IF "endpoint_whole_url" \in Dev
                  THEN {"miss"} \cup (IF \E i \in 1..Len(es) : EqFold(es[i], u) THEN {"hit"} ELSE {})
                  ELSE {})
